@@ -26,7 +26,7 @@ func callsDirect(f *ssa.Function, name string) []ssa.CallInstruction {
 			if cal := c.StaticCallee(); cal != nil {
 				n = funcKey(cal)
 			} else if c.IsInvoke() {
-				n = "method:" + strings.ReplaceAll(c.Method.FullName(), modulePath+".", "")
+				n = methodKey(c.Method.FullName())
 			}
 			if n == name {
 				res = append(res, ci)
